@@ -8,6 +8,8 @@
 
 #include "global.hpp"  // unodb: must be first
 
+#include <unistd.h>
+
 #include <cstddef>
 #include <cstdint>
 #include <memory>
@@ -59,6 +61,14 @@ struct alloc_tracker {
   static void install() {
     unodb::detail::verif::alloc_hook.store(&on_alloc);
     unodb::detail::verif::free_hook.store(&on_free);
+    // single-threaded harness: reaching a spin-wait means a lock was left held
+    unodb::detail::verif::sched_hook.store(+[](unsigned kind, const void*) noexcept {
+      if (kind == unodb::detail::verif::spin) {
+        static const char msg[] = "FAIL a node or root lock was left held: a single-threaded operation reached a spin-wait\n";
+        (void)!write(2, msg, sizeof msg - 1);
+        _exit(43);
+      }
+    });
   }
 };
 struct call_scope {
@@ -146,7 +156,8 @@ struct runner {
   bool fail(const char* prop, const std::string& msg) {
     const bool fatal = (std::string(prop) == "C01" && opts.check_c01) ||
                        (std::string(prop) == "C02" && opts.check_c02) ||
-                       (std::string(prop) == "C10" && opts.check_c10);
+                       (std::string(prop) == "C10" && opts.check_c10) ||
+                       (std::string(prop) == "C08" && opts.check_c08);
     if (!fatal) {
       if (st) st->inc(std::string("other_property_failures_") + prop);
       return false;
@@ -284,6 +295,172 @@ struct runner {
     if (!opts.collect) return;
     if (model.empty()) return;
     if (!seen_keysets.insert(keyset_hash).second) vd.revisited_keyset = true;
+  }
+
+  // ---- C08: snapshots and fault enumeration -------------------------------------
+  struct snapshot {
+    std::vector<std::pair<std::string, std::string>> content;  // forward scan
+    std::vector<int> gets;                                      // per probe key: -1 miss, else value hash
+    bool empty = false;
+    std::array<std::uint64_t, 5> nodes{};
+    std::array<std::uint64_t, 4> growing{}, shrinking{};
+    std::uint64_t splits = 0;
+    std::size_t mem = 0;
+    std::vector<std::pair<void*, std::size_t>> live;
+    bool operator==(const snapshot& o) const {
+      return content == o.content && gets == o.gets && empty == o.empty && nodes == o.nodes && growing == o.growing &&
+             shrinking == o.shrinking && splits == o.splits && mem == o.mem && live == o.live;
+    }
+  };
+  std::string snapshot_diff(const snapshot& a, const snapshot& b) {
+    if (a.content != b.content) return "scan output (entries / values) changed";
+    if (a.gets != b.gets) return "get results changed";
+    if (a.empty != b.empty) return "empty() changed";
+    if (a.nodes != b.nodes) return "node counts changed";
+    if (a.growing != b.growing || a.shrinking != b.shrinking || a.splits != b.splits) return "growth/shrink/prefix-split counters changed";
+    if (a.mem != b.mem) return "reported memory use changed (" + std::to_string(a.mem) + " -> " + std::to_string(b.mem) + ")";
+    if (a.live != b.live) return "the set of blocks held from the allocator changed (" + std::to_string(a.live.size()) + " -> " +
+                                 std::to_string(b.live.size()) + " blocks): something leaked or was replaced";
+    return "";
+  }
+  snapshot take_snapshot(const std::string& extra_key) {
+    snapshot sn;
+    auto& trk = alloc_tracker::get();
+    const bool saved = trk.in_call;
+    trk.in_call = false;  // iterator buffers etc. are not tree blocks
+    db->scan([&](const auto& v) {
+      const auto k = v.get_key();
+      std::string ks(reinterpret_cast<const char*>(k.data()), k.size());
+      std::string vs;
+      if constexpr (is_olc) {
+        const auto val = v.get_value();
+        vs.assign(reinterpret_cast<const char*>(val.begin().get()), val.size());
+      } else {
+        const auto val = v.get_value();
+        vs.assign(reinterpret_cast<const char*>(val.data()), val.size());
+      }
+      sn.content.emplace_back(std::move(ks), std::move(vs));
+      return false;
+    }, true);
+    auto probe = [&](const std::string& key) {
+      if (bound_violates_precondition(key)) {
+        sn.gets.push_back(-2);
+        return;
+      }
+      if constexpr (is_mutex) {
+        auto r = db->get(mk_key(key));
+        sn.gets.push_back(r.first ? static_cast<int>(hash_bytes(r.first->data(), r.first->size()) & 0x7fffffff) : -1);
+      } else if constexpr (is_olc) {
+        auto r = db->get(mk_key(key));
+        sn.gets.push_back(r ? static_cast<int>(hash_bytes(r->begin().get(), r->size()) & 0x7fffffff) : -1);
+      } else {
+        auto r = db->get(mk_key(key));
+        sn.gets.push_back(r ? static_cast<int>(hash_bytes(r->data(), r->size()) & 0x7fffffff) : -1);
+      }
+    };
+    for (auto& e : model) probe(e.first);
+    probe(extra_key);
+    sn.empty = db->empty();
+#ifdef UNODB_DETAIL_WITH_STATS
+    sn.nodes = db->get_node_counts();
+    sn.growing = db->get_growing_inode_counts();
+    sn.shrinking = db->get_shrinking_inode_counts();
+    sn.splits = db->get_key_prefix_splits();
+    sn.mem = db->get_current_memory_use();
+#endif
+    sn.live.assign(trk.live.begin(), trk.live.end());
+    std::sort(sn.live.begin(), sn.live.end());
+    trk.in_call = saved;
+    return sn;
+  }
+
+  // Runs op() with the k-th allocation failing, for k = 1, 2, ... until it
+  // completes without a fault; every failed attempt must leave no trace.
+  // Returns the result of the un-faulted run.
+  template <class Op>
+  bool with_faults(const std::string& key, const char* what, Op op) {
+#ifndef NDEBUG
+    using inj = unodb::test::allocation_failure_injector;
+    for (unsigned k = 1; k < 40; ++k) {
+      const snapshot before = take_snapshot(key);
+      inj::reset();
+      inj::fail_on_nth_allocation(k);
+      bool threw = false, wrong = false, result = false;
+      try {
+        call_scope cs;
+        result = op();
+      } catch (const std::bad_alloc&) {
+        threw = true;
+      } catch (...) {
+        wrong = true;
+      }
+      inj::reset();
+      if (wrong) {
+        fail("C08", std::string(what) + "(" + to_hex(key) + ") with allocation " + std::to_string(k) +
+                        " failing threw something other than std::bad_alloc");
+        return false;
+      }
+      if (!threw) return result;  // it made k-1 allocations
+      const snapshot after = take_snapshot(key);
+      ++vd.faults;
+      if (k >= 2) ++vd.faults_k2plus;
+      if (st && opts.collect) st->inc(std::string("faults.") + what + ".k" + std::to_string(k));
+      const std::string d = snapshot_diff(before, after);
+      if (!d.empty()) {
+        fail("C08", std::string(what) + "(" + to_hex(key) + ") failed with std::bad_alloc at its allocation #" +
+                        std::to_string(k) + " but left a trace: " + d);
+        return false;
+      }
+    }
+    fail("C08", std::string(what) + " still fails after 39 allocation faults");
+    return false;
+#else
+    (void)key;
+    (void)what;
+    call_scope cs;
+    return op();
+#endif
+  }
+
+  // over-long value / key: std::length_error, nothing changes
+  void long_input(const op& o) {
+    if (o.kind == INS_LONGKEY && (is_u64 || model.count(o.key))) return;  // would extend a stored key
+    const snapshot before = take_snapshot(o.key);
+    bool ok = false, wrong = false, returned = false, result = false;
+    std::vector<std::byte> buf(64);
+    std::memcpy(buf.data(), o.key.data(), std::min<std::size_t>(o.key.size(), buf.size()));
+    try {
+      call_scope cs;
+      if (o.kind == INS_LONGVAL) {
+        const unodb::value_view huge{buf.data(), (std::size_t{1} << 32)};
+        result = db->insert(mk_key(o.key), huge);
+      } else {
+        if constexpr (!is_u64) {
+          const unodb::key_view huge{buf.data(), (std::size_t{1} << 32) + 1};
+          result = db->insert(huge, mk_val(std::string("v")));
+        } else {
+          return;
+        }
+      }
+      returned = true;
+    } catch (const std::length_error&) {
+      ok = true;
+    } catch (...) {
+      wrong = true;
+    }
+    // A duplicate key may be rejected (false) before the length is looked at;
+    // an absent key with an over-long input must be refused by std::length_error.
+    if (returned && !result && o.kind == INS_LONGVAL && model.count(o.key)) ok = true;
+    if (wrong || !ok) {
+      fail("C08", std::string("insert with an over-long ") + (o.kind == INS_LONGVAL ? "value" : "key") +
+                      (wrong ? " threw something other than std::length_error" : " of an absent key did not throw"));
+      return;
+    }
+    const snapshot after = take_snapshot(o.key);
+    if (st && opts.collect) st->inc(o.kind == INS_LONGVAL ? "faults.length_error_value" : "faults.length_error_key");
+    ++vd.faults;
+    const std::string d = snapshot_diff(before, after);
+    if (!d.empty()) fail("C08", "insert with an over-long input threw std::length_error but left a trace: " + d);
   }
 
   // ---- scans -----------------------------------------------------------------
@@ -474,7 +651,8 @@ struct runner {
     for (std::size_t i = 0; i < c.ops.size() && vd.ok; ++i) {
       cur_op = static_cast<int>(i);
       const op& o = c.ops[i];
-      if ((o.kind == INS || o.kind == REM || o.kind == GET) && bound_violates_precondition(o.key)) {
+      if ((o.kind == INS || o.kind == REM || o.kind == GET || o.kind == INS_LONGVAL || o.kind == INS_LONGKEY) &&
+          bound_violates_precondition(o.key)) {
         if (st && opts.collect) st->inc("op_skipped_precondition");
         continue;
       }
@@ -492,10 +670,15 @@ struct runner {
           const bool absent = !model.count(o.key);
           if (absent) d = expected_insert_delta(model, o.key);
           bool r;
-          {
+          if (opts.check_c08) {
+            r = with_faults(o.key, "insert", [&] { return db->insert(mk_key(o.key), mk_val(val)); });
+            if (!vd.ok) break;
+          } else {
             call_scope cs;
             r = db->insert(mk_key(o.key), mk_val(val));
           }
+          if (r != absent && opts.check_c08)
+            fail("C08", "the un-faulted repeat of insert(" + to_hex(o.key) + ") did not return the normal result");
           if (r != absent) {
             fail("C01", "insert(" + to_hex(o.key) + ") returned " + (r ? "true" : "false") +
                             " but the key was " + (absent ? "absent" : "present"));
@@ -528,10 +711,15 @@ struct runner {
             drop_held(o.key);  // the view's lifetime ends with its entry
           }
           bool r;
-          {
+          if (opts.check_c08) {
+            r = with_faults(o.key, "remove", [&] { return db->remove(mk_key(o.key)); });
+            if (!vd.ok) break;
+          } else {
             call_scope cs;
             r = db->remove(mk_key(o.key));
           }
+          if (r != present && opts.check_c08)
+            fail("C08", "the un-faulted repeat of remove(" + to_hex(o.key) + ") did not return the normal result");
           if (r != present) {
             fail("C01", "remove(" + to_hex(o.key) + ") returned " + (r ? "true" : "false") +
                             " but the key was " + (present ? "present" : "absent"));
@@ -626,6 +814,10 @@ struct runner {
         }
         case RELOAD:
           check_reload();
+          break;
+        case INS_LONGVAL:
+        case INS_LONGKEY:
+          if (opts.check_c08) long_input(o);
           break;
         case SCAN:
         case SCAN_FROM:
